@@ -33,6 +33,9 @@ MS = 1_000_000
 HOST = '''"""c10 host"""
 GLOBAL_LIMIT = 3
 NAMES = ["ann", "bob", "cy"]
+v = -100            # shadowed by the parameter v of the functions below
+name = "module-level-name"
+flag = "module-level-flag"
 MOD_MARK = GLOBAL_LIMIT + 1  # @hit_mod
 
 
@@ -82,6 +85,8 @@ CONDS_FN = ['v > 2', 'flag', 'not flag', 'v % 2 == 0', 'GLOBAL_LIMIT < v', 'help
             'name in NAMES', 'True', 'False', '', '   ', 'v / 0 > 1', 'undefined_zz > 1', 'raise_base()',
             'fail_with("1")', 'fail_with("true")', 'fail_with("boom")', 'obj.missing', 'v == 1 or flag',
             'isinstance(v, int) and v >= GLOBAL_LIMIT', 'all([flag, obj.ok])', 'uuid is not None',
+            '10 / v > 2', 'NAMES[v] == "ann"', 'name[2] == "n"', 'NAMES[v + 1] != "zz"', 'int(name) > 0 or True',
+            '[0, 1][v] == 1', 'v > 0 and NAMES[v - 1] == "ann"',
             'FrameCollector is not None', 'bool(v)', 'v in (1, 3, 5)']
 CONDS_MOD = ['GLOBAL_LIMIT == 3', 'GLOBAL_LIMIT > 5', 'helper is not None', 'len(NAMES) == 3', 'nope_zz', '',
              'uuid is not None', '"MOD_MARK" in dir()']
@@ -144,7 +149,7 @@ def case_cond(seed, out, spec, wd):
     rig = Rig(custom={}, host_dir=wd, plugins=[plugins.RecLogger(), plugins.RecMetrics()])
     rig.install([trig])
     nhits = r.randrange(3, 13)
-    inputs = [(r.randrange(0, 6), r.chance(0.5), r.pick(['ann', 'bo', 'cy', 'zed']), r.chance(0.5)) for _ in range(nhits)]
+    inputs = [(r.randrange(0, 6), r.chance(0.5), r.pick(['ann', 'bo', 'cy', 'zed', '7']), r.chance(0.5)) for _ in range(nhits)]
     truth = []        # per hit: (cond_true, failed_exc_name)
     expected_vals = []  # per hit: [(expr, value, failed)] as seen by the recorder
     acted = []        # per hit index: list of observations
